@@ -52,7 +52,7 @@ Definition embed (p : program) : dprogram := map embed_line p.
 Definition d_assigns (x : var) (l : dline) : bool :=
   match dl_body l with DAssign a => str_eqb (a_var a) x | _ => false end.
 Definition d_undefs (x : var) (l : dline) : bool :=
-  match dl_body l with DUndef xs => existsb (str_eqb x) xs | _ => false end.
+  match dl_body l with DUndef xs => existsb (fun y => str_eqb y x) xs | _ => false end.
 
 (* The sections that are open at a line, as a specification of its own (not
    the Indentation of the model): the indices of the .if/.for lines before the
@@ -72,4 +72,4 @@ Definition open_sections (pre : dprogram) : list nat := open_sections_from 0 [] 
 
 (* the line after [pre] is inside a section other than the inclusion guard [g] *)
 Definition in_conditional_section (g : option nat) (pre : dprogram) : bool :=
-  existsb (fun o => match g with Some gi => negb (Nat.eqb gi o) | None => true end) (open_sections pre).
+  existsb (fun o => negb (is_guard_line g o)) (open_sections pre).
